@@ -199,6 +199,22 @@ def foreign_members(own):
     return [(m, "foreign-enum-member") for m in _foreign if type(m) is not own]
 
 
+_parents = {}
+
+
+def parents_adding(child_tag):
+    """[(parent tag, '_add_<x>')] for the registered classes whose generated adder creates `child_tag` and takes attributes."""
+    if not _parents:
+        from vlib import introspect
+
+        for ptag, pcls in introspect.registrations().items():
+            for dd in introspect.child_decls(pcls):
+                m = "_add_" + dd["prop"]
+                if dd.get("tag") and m in dd["methods"] and dd["generated"].get(m):
+                    _parents.setdefault(dd["tag"], []).append((ptag, m))
+    return _parents.get(child_tag, [])
+
+
 def vclass_key(v):
     if hasattr(type(v), "__members__"):
         return "enum-member"
@@ -370,6 +386,22 @@ def check_attr(T, cls, d, acc, grid):
                 "%s held %r; = %s was rejected but left attributes %r" % (ident, good, _short(v), dict(el.attrib)),
                 {"T": T, "prop": d["prop"], "value": repr(v), "held": good},
             )
+    # ---- the same rejection reached through a PARENT's generated adder, `parent._add_x(attr=value)`: nothing may be added
+    for ptag, meth in parents_adding(T)[:2]:
+        for v in rejected_vals[:8]:
+            parent = oxml_parser.makeelement(ptag)
+            try:
+                getattr(parent, meth)(**{d["prop"]: v})
+            except (TypeError, ValueError):
+                acc.count("rejections_through_a_parent_adder")
+                if len(parent):
+                    acc.violation(
+                        "rejected-but-child-added:%s" % stname,
+                        "<%s>.%s(%s=%s) was rejected but left %s in the parent" % (xsdkit.pfx_tag(ptag), meth, d["prop"], _short(v), [xsdkit.pfx_tag(c.tag) for c in parent]),
+                        {"T": T, "prop": d["prop"], "value": repr(v), "parent": ptag},
+                    )
+            except Exception:  # noqa  (adders with other required arguments, other exceptions: judged on the element itself above)
+                pass
     # ---- reading: every schema-valid lexical alternative
     m = xsdkit.model()
     pool = list(LEX_POOL)
